@@ -28,6 +28,12 @@ func (self *FieldsMatcher) CheckContainerPreConstraints(r *ChildRequest) (bool, 
 	if r.IsNavigation() {
 		return true, nil
 	}
+	if !self.reverse {
+		// need to pass thru the containers that lead to a selected node
+		if leads, ok := self.selector.(interface{ PathLeadsTo(*Path, *Path) bool }); ok && leads.PathLeadsTo(r.Base, r.Path) {
+			return true, nil
+		}
+	}
 	return self.selector.PathMatches(r.Base, r.Path) != self.reverse, nil
 }
 
